@@ -445,19 +445,21 @@ class Connection(object):
 
     def _dispatch(self, data):  # serving---dispatch?
         msg, seq, args = brine.load(data)
-        if msg == consts.MSG_REQUEST:
-            try:
+        try:
+            if msg == consts.MSG_REQUEST:
                 self._dispatch_request(seq, args)
-            except EOFError:
-                # the response could not be written: the transport is gone, so is the connection
-                self.close()
-                raise
-        elif msg == consts.MSG_REPLY:
-            self._deliver_response(msg, seq, False, self._unbox, args)
-        elif msg == consts.MSG_EXCEPTION:
-            self._deliver_response(msg, seq, True, self._unbox_exc, args)
-        else:
-            raise ValueError("invalid message type: %r" % (msg,))
+            elif msg == consts.MSG_REPLY:
+                self._deliver_response(msg, seq, False, self._unbox, args)
+            elif msg == consts.MSG_EXCEPTION:
+                self._deliver_response(msg, seq, True, self._unbox_exc, args)
+            else:
+                raise ValueError("invalid message type: %r" % (msg,))
+        except EOFError:
+            # the transport is gone - the response to a request could not be written, or a request made while
+            # a response was being delivered (the class inspection of a first reference, a result callback)
+            # met the end: so is the connection
+            self.close()
+            raise
 
     def serve(self, timeout=1, wait_for_lock=True):  # serving
         """Serves a single request or reply that arrives within the given
